@@ -851,3 +851,84 @@ def translate_group_lambda(repo='/repo', tu=None):
             'From Coq Require Import ZArith Bool List.\nFrom MomoCommon Require Import GenPrelude.\nLocal Open Scope Z_scope.\n\n'
             '(* the lambda is `if (<this>) pvGroup(begin, count, equalFunc, iterSwapper);` *)\n'
             'Definition group_lambda_calls_pvGroup (count : Z) : bool := %s.\n' % cond)
+
+
+# ======================================================================================================================
+# grow round 6: HashSorter::pvIsGrouped / pvIsSorted, translated from the source
+class IsFn(GrpFn):
+    """`begin` is an offset (Z): SMath::Next(begin, e) denotes position begin + e, so that pvIsSorted's calls
+    pvIsGrouped(SMath::Next(begin, prevIndex), n, equalFunc) translate to calls of the generated pvIsGrouped on a shifted range;
+    iterHashFunc(x) reads the state array `hashes` at the position of x."""
+    def pos(self, n):
+        t = strip_casts(n)
+        if t.get('kind') == 'DeclRefExpr' and t['referencedDecl']['name'] == 'begin':
+            return 'begin'
+        ci = callinfo(n)
+        if ci is not None and ci[0] == 'Next' and len(ci[1]) == 2:
+            b = strip_casts(ci[1][0])
+            if b.get('kind') == 'DeclRefExpr' and b['referencedDecl']['name'] == 'begin':
+                return '(begin + %s)' % self.e(ci[1][1])
+        raise TranslationError('iterator expression is neither begin nor Next(begin, e)')
+
+    def e(self, n):
+        oi = opinfo(n)
+        if oi is not None and oi[0] == 'operator()' and oi[1] == 'iterHashFunc':
+            return '(hashes %s)' % self.pos(oi[2][0])
+        ci = callinfo(n)
+        if ci is not None and ci[0] == 'Next':
+            return self.pos(n)
+        return super().e(n)
+
+    def used_names(self, n, acc):
+        oi = opinfo(n) if isinstance(n, dict) and n.get('kind') == 'CXXOperatorCallExpr' else None
+        if oi is not None and oi[1] == 'iterHashFunc':
+            acc.add('hashes')
+        return super().used_names(n, acc)
+
+
+def _hoist_negated_calls(n, counter):
+    """`if (!f(args)) S` -> `{ bool t = f(args); if (!t) S }` (f returns an outcome in the generated code, so it must be bound first)"""
+    if not isinstance(n, dict):
+        return n
+    n = dict(n)
+    if 'inner' in n:
+        n['inner'] = [_hoist_negated_calls(c, counter) for c in n['inner']]
+    if n.get('kind') == 'IfStmt' and n.get('inner'):
+        c = strip_casts(n['inner'][0])
+        if c.get('kind') == 'UnaryOperator' and c.get('opcode') == '!' and callinfo(c['inner'][0]) is not None and callinfo(c['inner'][0])[0] == 'pvIsGrouped':
+            counter[0] += 1
+            nm = 'grouped%d' % counter[0]
+            var = {'kind': 'VarDecl', 'name': nm, 'type': {'qualType': 'bool'}, 'inner': [c['inner'][0]]}
+            ref = {'kind': 'DeclRefExpr', 'type': {'qualType': 'bool'}, 'referencedDecl': {'kind': 'VarDecl', 'name': nm, 'type': {'qualType': 'bool'}}}
+            cond = {'kind': 'UnaryOperator', 'opcode': '!', 'type': {'qualType': 'bool'}, 'inner': [ref]}
+            ifs = dict(n); ifs['inner'] = [cond] + n['inner'][1:]
+            return {'kind': 'CompoundStmt', 'inner': [{'kind': 'DeclStmt', 'inner': [var]}, ifs]}
+    return n
+
+
+def translate_issorted(repo='/repo', tu=None):
+    tu = tu or os.path.join(os.path.dirname(os.path.abspath(__file__)), 'inst_hs.cpp')
+    cfg = {'tu': tu, 'filter': 'HashSorter', 'includes': [os.path.join(repo, 'include')]}
+    objs = cxx2coq.load_objs(cxx2coq.dump_ast(cfg, repo))
+    cfgf = {'name': 'Gen_IsSorted', 'fields': {'items': 'array', 'hashes': 'array'}, 'functions': [],
+            'functor_params': {'pvIsGrouped': {'equalFunc': 'skip'}, 'pvIsSorted': {'equalFunc': 'skip', 'iterHashFunc': 'skip'}},
+            'ret_types': {'pvIsGrouped': 'bool', 'pvIsSorted': 'bool'}, 'fuel': {'pvIsGrouped': 'loop_fuel', 'pvIsSorted': 'loop_fuel'}}
+    ctx = cxx2coq.Ctx(cfgf)
+    out = []
+    for name in ('pvIsGrouped', 'pvIsSorted'):
+        ds = [d for d in _methods(objs, name) if any(c.get('kind') == 'TemplateArgument' for c in d.get('inner', []))]
+        if len(ds) < 1:
+            raise TranslationError('no instantiated HashSorter::%s' % name)
+        d = dict(ds[0]); d.pop('storageClass', None)
+        d = _hoist_negated_calls(d, [0])
+        f = IsFn(ctx, d, name)
+        try:
+            out.append(f.gen())
+        except TranslationError as ex:
+            raise TranslationError('%s: %s' % (name, ex))
+        ctx.fninfo[name] = f
+        if hasattr(ctx, 'fninfo_id') and 'id' in d:
+            ctx.fninfo_id[d['id']] = f
+    return ('(* GENERATED by props/C17/sel2coq.py (on tools/cxx2coq.py) from HashSorter.h: pvIsGrouped, pvIsSorted -- do not edit *)\n\n'
+            'From Coq Require Import ZArith Bool List.\nFrom MomoCommon Require Import GenPrelude.\nLocal Open Scope Z_scope.\n\n'
+            'Section Gen_IsSorted_sec.\nVariable eqf : Z -> Z -> bool.\nVariable loop_fuel : nat.\n\n' + '\n\n'.join(out) + '\n\nEnd Gen_IsSorted_sec.\n')
